@@ -279,9 +279,11 @@ Proj(h) == [st |-> h.st, def |-> h.def, cnt |-> h.cnt, dyn |-> h.dyn, has |-> h.
 Obs(p) == [st |-> p.st, def |-> p.def, cnt |-> p.cnt, dyn |-> p.dyn, has |-> p.has,
            ist |-> p.ist, ih |-> p.ih, dst |-> p.dst, dh |-> p.dh,
            ost |-> p.ost, oh |-> Cont(p.oh), envRec |-> p.envRec]
-\* the actions a commit of the real director may be: job transactions (ExecWrite is driven by the
-\* logged end of the command) and the surroundings' updates
-Succ(h) ==
+\* the actions a commit of the real director may be.  A commit made by one of the job's own functions
+\* (pop_next_job, _new_run, _finalize_failed_run, _reset_step_to_pending, validate_dynamic_job,
+\* try_skip_job, execute_job, amend_step) is one job transaction, after the job's silent steps; any
+\* other commit (hash jobs, start-up, watcher) is one to three updates of the surroundings
+SuccJob(h) ==
   {x \in { IF DispatchEn(h) THEN DoDispatch(h) ELSE h,
            IF NewRunOkEn(h) THEN DoNewRunOk(h) ELSE h,
            IF NewRunRefreshEn(h) THEN DoNewRunRefresh(h) ELSE h,
@@ -291,18 +293,20 @@ Succ(h) ==
            IF SkipOutEn(h) THEN DoSkipOut(h) ELSE h,
            IF ExecResetEn(h) THEN DoExecReset(h) ELSE h,
            IF ExecAmendEn(h) THEN DoExecAmend(h) ELSE h,
-           IF ExecCompleteEn(h) THEN DoExecComplete(h) ELSE h,
-           IF RefreshEn(h, "i") THEN DoRefresh(h, "i") ELSE h,
+           IF ExecConfirmedEn(h) THEN DoExecConfirmed(h) ELSE h,
+           IF ExecCompleteEn(h) THEN DoExecComplete(h) ELSE h } : x # h}
+SuccEnv(h) ==
+  {x \in { IF RefreshEn(h, "i") THEN DoRefresh(h, "i") ELSE h,
            IF RefreshEn(h, "d") THEN DoRefresh(h, "d") ELSE h,
            IF RefreshEn(h, "o") THEN DoRefresh(h, "o") ELSE h,
            DoFailedPending(h), DoEnvRescan(h) } : x # h}
-\* silent steps (no change of the stored rows) may precede the one that explains the commit; a
-\* commit may also carry two updates of the surroundings (a batch of hash updates)
-Silent(h) == {x \in Succ(h) : Proj(x) = Proj(h)}
-Within1(h) == Succ(h) \cup UNION {Succ(x) : x \in Silent(h)}
-Within2(h) == Within1(h) \cup UNION {Succ(x) : x \in Within1(h)}
-Match(h, o) == LET m1 == {x \in Within1(h) : Proj(x) = o}
-               IN IF m1 # {} THEN m1 ELSE {x \in Within2(h) : Proj(x) = o}
+SilentJob(h) == {x \in SuccJob(h) : Proj(x) = Proj(h)}
+JobWithin(h) == SuccJob(h) \cup UNION {SuccJob(x) : x \in SilentJob(h)}
+                \cup UNION {UNION {SuccJob(y) : y \in SilentJob(x)} : x \in SilentJob(h)}
+EnvWithin(h) == LET s1 == SuccEnv(h)
+                    s2 == UNION {SuccEnv(x) : x \in s1}
+                IN s1 \cup s2 \cup UNION {SuccEnv(x) : x \in s2}
+Match(h, o, cls) == {x \in (IF cls = "job" THEN JobWithin(h) ELSE EnvWithin(h)) : Proj(x) = o}
 \* resynchronise on the observation when nothing explains it, so that the rest is still checked
 Adopt(h, o) ==
   [h EXCEPT !.st = o.st, !.def = o.def, !.cnt = o.cnt, !.dyn = o.dyn,
@@ -330,6 +334,15 @@ Apply(h, e) ==
     [] e.a = "phase" -> <<"ok", DoPhaseStart(h)>>
     \* Scheduler._derive_job: which job the dispatched step got
     [] e.a = "kind" -> <<IF h.job.k = e.k THEN "ok" ELSE "dispatched_job_is_of_another_kind_than_in_the_job_model", h>>
+    \* end of a build during which nobody touched a file: the stored hashes agree with the tree and a
+    \* SUCCEEDED step has the output a fresh run would write (Sound, on the code's own state)
+    [] e.a = "settled" ->
+         IF ~e.clean THEN <<"ok", h>>
+         ELSE IF RefreshEn(h, "i") \/ RefreshEn(h, "d") \/ RefreshEn(h, "o")
+              THEN <<"stored_hashes_differ_from_the_tree_after_an_undisturbed_build", h>>
+         ELSE IF h.st = "SUCCEEDED" /\ ~(h.di # 0 /\ h.dd # 0 /\ h.do = Gen(h.di, h.dd, h.env))
+              THEN <<"succeeded_with_an_output_that_a_fresh_run_would_not_write", h>>
+         ELSE <<"ok", h>>
     [] e.a = "drain" -> <<IF h.drain = e.v THEN "ok" ELSE "scheduler_drained_differs_from_the_job_model", [h EXCEPT !.drain = e.v]>>
     [] e.a = "hash" ->
          LET h0 == AdvanceTo(h, {"new", "inpok", "ran"}, 3)
@@ -350,7 +363,7 @@ Apply(h, e) ==
     [] e.a = "obs" ->
          LET o == Obs(e.p) IN
          IF Proj(h) = o THEN <<"same", h>>
-         ELSE LET m == Match(h, o) IN
+         ELSE LET m == Match(h, o, e.cls) IN
               IF m # {} THEN <<"ok", CHOOSE x \in m : TRUE>>
               ELSE <<"commit_not_explained_by_the_job_model", Adopt(h, o)>>
 Init == g = 0 /\ dirty = FALSE /\ nv = 0 /\ nb = 0 /\ l = 1 /\ out = <<>> /\ ak = 0 /\ cur = G0(1, 1, 0) /\ acc = <<>>
